@@ -285,7 +285,10 @@ func Check(env *core.Env, rep *core.Report) *core.Result {
 		nm := b.String()
 		ncases = append(ncases, ncase{nm, concretise(nm, n.Env), ""})
 		if len(ncases)%3 == 0 {
-			ncases = append(ncases, ncase{nm, "MY_" + fmt.Sprint(len(ncases)), "MY_" + fmt.Sprint(len(ncases))})
+			// (an exportAs name is taken as it is written, whatever characters it has)
+			ex := []string{"MY_%d", "MY_.%d", "MY_RES-%d", "MY_ci/b:%d x"}[(len(ncases)/3)%4]
+			ex = fmt.Sprintf(ex, len(ncases))
+			ncases = append(ncases, ncase{nm, ex, ex})
 		}
 	}
 	for pos := 0; pos < 3; pos++ {
